@@ -3,7 +3,7 @@ open Shm
 
 /-- model-side context of a call, printed with every mismatch so that the per-property judges can tell what the
     disagreement is about: the session's CK_STATE and, for an object handle, whether the object is private / on token -/
-def callCtx (s : State) (c : Call) : String :=
+def callCtxCore (s : State) (c : Call) : String :=
   let sess (h : Nat) : String :=
     match sessTok s h with
     | some (ss, t) => s!"state={(stateOf t ss.rw).toNat}"
@@ -19,6 +19,17 @@ def callCtx (s : State) (c : Call) : String :=
   | .setAttr h o _ _ => s!"{sess h} {obj o}"
   | .copy h o _ _ => s!"{sess h} {obj o}"
   | .findInit h _ _ | .find h _ | .findFinal h => sess h
+  | _ => ""
+
+def callCtx (s : State) (c : AnyCall) : String :=
+  match c with
+  | .core c => callCtxCore s c
+  | .op (.opInit _ h _ _ k _) =>
+    let st := match sessTok s h with | some (ss, t) => s!"state={(stateOf t ss.rw).toNat}" | none => "state=-"
+    let ob := match resolveObj s k with
+      | some (_, ob) => s!"objPriv={if ob.isPriv then 1 else 0} objTok={if ob.onToken then 1 else 0} keyType={getULongD ob.attrs 0x100 99}"
+      | none => "obj=-"
+    s!"{st} {ob}"
   | _ => ""
 
 /-- summary of one model step for the coverage histogram: op name + rv -/
@@ -57,10 +68,10 @@ partial def loop (h : IO.FS.Stream) (d : Drv) (pendingOp : Option (List String))
         IO.println s!"UNPARSED line {d.lineNo}: {" ".intercalate op} => {" ".intercalate res}"
         loop h { d with unparsed := d.unparsed + 1 } none
       | some p =>
-        let (st', r) := step d.st p.call
+        let (st', r) := stepAny d.st p.call
         let ctxStr := callCtx d.st p.call
         let d := { d with st := st', pairs := d.pairs + 1 }
-        match compareResp p.call r p.obs with
+        match compareResp r p.obs with
         | none => IO.println s!"ok {sig op r.rv}"; loop h d none
         | some why =>
           IO.println s!"MISMATCH line {d.lineNo} cat={mismatchCat r p.obs} op={op.headD "?"} :: {" ".intercalate op} => {" ".intercalate res} :: {why} :: ctx {ctxStr} modelrv={r.rv}"
